@@ -700,6 +700,19 @@ func ReachFactDrop(fn *ssa.Function, from ssa.Instruction, target func(ssa.Instr
 	return reachRegion(fn, from, target, blocked, barrier, isFact, known, drop)
 }
 
+// assumedBools: truth values the exploration starts out knowing (ReachAssuming).
+var assumedBools map[ssa.Value]bool
+
+// ReachAssuming is Reach with an assumption about boolean values at the start: the exploration begins with these
+// truth values among its path facts, so every edge that would imply the opposite - directly, through a negation, or
+// through a named condition the value was folded into - is contradictory and not taken. "Can the target be reached
+// while the flag is false?" is asked this way.
+func ReachAssuming(fn *ssa.Function, from ssa.Instruction, target func(ssa.Instruction) bool, blocked map[Edge]bool, barrier func(ssa.Instruction) bool, assume map[ssa.Value]bool) ([]*ssa.BasicBlock, bool) {
+	assumedBools = assume
+	defer func() { assumedBools = nil }()
+	return reachRegion(fn, from, target, blocked, barrier, nil, "", nil)
+}
+
 // ReachFromBlock is Reach started at the first instruction of blk, a block of fn or of one of its expanded helpers
 // (in a helper the calling context is unknown: the helper's returns continue after each of its call sites).
 func ReachFromBlock(fn *ssa.Function, blk *ssa.BasicBlock, target func(ssa.Instruction) bool, blocked map[Edge]bool, barrier func(ssa.Instruction) bool) ([]*ssa.BasicBlock, bool) {
@@ -755,10 +768,17 @@ func reachRegion1(fn *ssa.Function, from ssa.Instruction, target func(ssa.Instru
 		seen[k] = true
 		items = append(items, it)
 	}
+	var seedPF *pathFacts
+	if withFacts && len(assumedBools) > 0 {
+		seedPF = (*pathFacts)(nil).clone()
+		for v, b := range assumedBools {
+			seedPF.bools[v] = b
+		}
+	}
 	if from == nil && startBlock != nil {
-		items = append(items, ritem{b: startBlock, start: 0, k: known, parent: -1})
+		items = append(items, ritem{b: startBlock, start: 0, k: known, parent: -1, pf: seedPF})
 	} else if from == nil {
-		push(ritem{b: fn.Blocks[0], start: 0, k: known, parent: -1})
+		push(ritem{b: fn.Blocks[0], start: 0, k: known, parent: -1, pf: seedPF})
 	} else {
 		b := from.Block()
 		idx := 0
@@ -767,7 +787,32 @@ func reachRegion1(fn *ssa.Function, from ssa.Instruction, target func(ssa.Instru
 				idx = i + 1
 			}
 		}
-		it := ritem{b: b, start: idx, k: known, parent: -1}
+		it := ritem{b: b, start: idx, k: known, parent: -1, pf: seedPF}
+		// what every path to the starting point has established: the edges that dominate its block
+		if withFacts {
+			var doms []Edge
+			for d := b; d != nil && d.Idom() != nil; d = d.Idom() {
+				id := d.Idom()
+				if BlockIf(id) == nil {
+					continue
+				}
+				e0, e1 := EdgeDominates(Edge{From: id, Succ: 0}, b), EdgeDominates(Edge{From: id, Succ: 1}, b)
+				if e0 != e1 {
+					succ := 0
+					if e1 {
+						succ = 1
+					}
+					doms = append(doms, Edge{From: id, Succ: succ})
+				}
+			}
+			pf := it.pf
+			for i := len(doms) - 1; i >= 0; i-- {
+				if npf, ok := learnEdge(rg, pf, doms[i]); ok {
+					pf = npf
+				}
+			}
+			it.pf = pf
+		}
 		items = append(items, it) // not marked seen: a loop back to the block start is explored fully
 	}
 	path := func(i int) []*ssa.BasicBlock {
